@@ -574,6 +574,63 @@ def simulate(seq, L):
                 normal.append((fi, idx, fidx, len(sizes)))
     return llps, normal, fi, overflow
 
+def features(seq, L):
+    """which of the alignments named by C10 a sequence exercises (for the evidence file)"""
+    fi, fill = 0, 0
+    feats = set()
+    frame_llp = False            # the frame under construction already holds a low-latency PTDP
+    frame_at_hdr = True          # the frame under construction begins exactly at a PTDP header
+    prev_exact = False
+    for (b, llp) in seq:
+        n = len(b)
+        sizes = [n + 6] if n <= 2048 else [min(2048, n - 2048 * i) + 6 for i in range((n + 2047) // 2048)]
+        if n > 2048:
+            feats.add("fragmented")
+        for s in sizes:
+            if llp:
+                if s + 1 > L - fill:
+                    feats.add("llp_overflow")
+                    fill += s + 1
+                    while fill > L:
+                        fill -= L; fi += 1; frame_llp = False; frame_at_hdr = False
+                    continue
+                if fill == 0:
+                    feats.add("llp_on_empty_frame")
+                elif frame_llp:
+                    feats.add("llp_on_llp_frame")
+                    if frame_at_hdr:
+                        feats.add("llp_on_llp_frame_empty_remainder")
+                else:
+                    feats.add("llp_on_part_filled_frame")
+                    if frame_at_hdr:
+                        feats.add("llp_empty_remainder")
+                if fill + s + 1 == L:
+                    feats.add("llp_fills_frame_exactly")
+                fill += s + 1
+                frame_llp = True
+            else:
+                if fill == L:
+                    if s > L:
+                        feats.add("exact_fill_then_longer_than_a_frame")
+                    if s > 2 * L:
+                        feats.add("exact_fill_then_longer_than_two_frames")
+                if 0 < L - fill < 6:
+                    feats.add("header_split_after_%d" % (L - fill))
+                if s > 2 * L:
+                    feats.add("spans_many_frames")
+                start_fill = fill
+                fill += s
+                first = True
+                while fill > L:
+                    fill -= L; fi += 1; frame_llp = False
+                    frame_at_hdr = first and start_fill == L
+                    first = False
+                if fill == L:
+                    feats.add("ends_on_frame_boundary")
+                    if s > L - start_fill and s - (L - start_fill) >= L:
+                        feats.add("tail_fills_frame_exactly")
+    return feats
+
 def expected_packets(seq, L):
     """what a correct decapsulator returns for the frames emitted: per frame, the low-latency packets
     inserted into it (any order among themselves), then the normal packets whose last byte lies in it"""
@@ -723,7 +780,7 @@ def _c10_sequences(ctx, n):
     llp_fixed = [
         (74, [(5, True), (4, False), (70, False)]),                # LLP on the empty first frame (D14 witness)
         (40, [(3, True), (2, True), (4, False), (60, False)]),     # second LLP on an LLP-holding frame
-        (40, [(28, False), (4, False), (3, True), (2, True), (60, False)]),   # exact fill, then LLPs on a frame starting at a header
+        (40, [(34, False), (4, False), (3, True), (2, True), (60, False)]),   # exact fill, then two LLPs on a frame starting at a header: decapsulated with an EMPTY carried remainder
         (40, [(10, False), (3, True), (60, False)]),               # LLP on a partly filled frame
         (40, [(50, False), (3, True), (2, True), (60, False)]),    # LLPs on a frame that starts with a PTDP tail
         (30, [(3, False), (14, True), (60, False)]),               # LLP filling the frame exactly (with its marker)
@@ -812,6 +869,9 @@ def _stream_oracles(ctx, hints):
     for (L, mode, seq) in _c10_sequences(ctx, budget):
         args = {"L": L, "sid": 1, "pkts": [[b.hex(), l] for b, l in seq]}
         overflow = simulate(seq, L)[3]
+        for ft in features(seq, L):
+            ctx.count("c10_" + ft)
+        ctx.count("c10_sequences_" + ("llp" if any(l for _, l in seq) else "normal"))
         for name, fn in (("ch7_encap", check_encap), ("ch7_decap", check_decap)):
             n += 1
             try:
